@@ -783,3 +783,98 @@ where
         Ok(())
     }
 }
+
+#[cfg(datacake_verif)]
+/// Verification-only entry points (cfg(datacake_verif)).
+pub mod verif {
+    use super::*;
+    pub use crate::keyspace::*;
+    pub use crate::rpc::services::consistency_impl::*;
+    pub use crate::rpc::services::replication_impl::*;
+    pub use crate::rpc::{ConsistencyClient, ReplicationClient};
+    pub use crate::replication::poller_verif::{repair_from, set_failpoint};
+
+    /// Same as `EventuallyConsistentStore::create` but on top of a handle and
+    /// an already existing RPC server instead of a chitchat connected node.
+    pub async fn create_store<S: Storage>(
+        datastore: S,
+        repair_interval: Duration,
+        node: DatacakeHandle,
+        rpc_server: &datacake_rpc::Server,
+    ) -> Result<EventuallyConsistentStore<S>, StoreError<S::Error>> {
+        let storage = Arc::new(datastore);
+        let group = KeyspaceGroup::new(storage.clone(), node.clock().clone()).await;
+        let statistics = SystemStatistics::default();
+        group.load_states_from_storage().await?;
+
+        let task_ctx = TaskServiceContext {
+            clock: node.clock().clone(),
+            network: node.network().clone(),
+            local_node_id: node.me().node_id,
+            public_node_addr: node.me().public_addr,
+        };
+        let replication_ctx = ReplicationCycleContext {
+            repair_interval,
+            group: group.clone(),
+            network: node.network().clone(),
+        };
+        let task_service =
+            replication::start_task_distributor_service::<S>(task_ctx).await;
+        let repair_service = replication::start_replication_cycle(replication_ctx).await;
+
+        tokio::spawn(watch_membership_changes(
+            task_service.clone(),
+            repair_service.clone(),
+            node.clone(),
+        ));
+
+        rpc_server.add_service(ConsistencyService::new(
+            group.clone(),
+            node.network().clone(),
+        ));
+        rpc_server.add_service(ReplicationService::new(group.clone()));
+
+        Ok(EventuallyConsistentStore {
+            node,
+            group,
+            statistics,
+            task_service,
+            repair_service,
+        })
+    }
+
+    pub fn group_of<S: Storage>(
+        store: &EventuallyConsistentStore<S>,
+    ) -> KeyspaceGroup<S> {
+        store.group.clone()
+    }
+
+    pub fn network_of<S: Storage>(
+        store: &EventuallyConsistentStore<S>,
+    ) -> datacake_node::RpcNetwork {
+        store.node.network().clone()
+    }
+
+    static ADD_STATE_CALLS: parking_lot::Mutex<
+        Option<std::collections::HashMap<String, usize>>,
+    > = parking_lot::Mutex::new(None);
+
+    /// Called at the top of `KeyspaceGroup::add_state`.
+    pub(crate) fn note_add_state(name: &str) {
+        *ADD_STATE_CALLS
+            .lock()
+            .get_or_insert_with(Default::default)
+            .entry(name.to_string())
+            .or_insert(0) += 1;
+    }
+
+    /// How many keyspace states have been created (process wide) under `name`;
+    /// the entry is removed.
+    pub fn take_add_state_calls(name: &str) -> usize {
+        ADD_STATE_CALLS
+            .lock()
+            .as_mut()
+            .and_then(|m| m.remove(name))
+            .unwrap_or(0)
+    }
+}
